@@ -708,6 +708,15 @@ def rule_lk1(ctx, rels, scope=None):
                         "np.linalg.svd", "np.linalg.qr", "np.sqrt",
                         "np.cos", "np.sin", "np.exp", "np.arccosh",
                         "np.linalg.solve")
+                    if not good and isinstance(n, ast.Assign):
+                        # re-arranging / taking parts of inexact locals
+                        # keeps them inexact
+                        names = {x.id for x in ast.walk(n.value)
+                                 if isinstance(x, ast.Name)
+                                 and x.id not in ("np", "utils")}
+                        if names and names <= inexact_locals and \
+                                "astype" not in dotted(n.value):
+                            good = True
                     if not good:
                         for t in tg:
                             for x in ast.walk(t):
